@@ -1,6 +1,7 @@
 package gosym
 
 import (
+	"os"
 	"fmt"
 	"go/types"
 	"strings"
@@ -524,6 +525,9 @@ func (ex *Exec) verifCall(fr *Frame, f *ssa.Function, cc *ssa.CallCommon, args [
 		t := args[1].(*Term)
 		if t.IsConst() {
 			ex.observes = append(ex.observes, fmt.Sprintf("%s=%#x", ex.labelOf(args[0]), t.Val))
+			if os.Getenv("VERIF_TRACE") != "" {
+				fmt.Fprintf(os.Stderr, "observe %s=%#x\n", ex.labelOf(args[0]), t.Val)
+			}
 		} else {
 			ex.observes = append(ex.observes, fmt.Sprintf("%s=<symbolic>", ex.labelOf(args[0])))
 		}
